@@ -1208,6 +1208,17 @@ int main(int argc, char** argv) {
             argc, argv, P2HEXParams, P2HEXParamCnt, ParUnprocessed, "P2HEXCMD",
             ParamError);
 
+    /* an explicit -r range is the window of the segment that gets converted */
+
+    if ((ForceSegment != SegNone) && (ForceSegment != SegCode)) {
+        if (!StartAuto) {
+            StartAdr[ForceSegment] = StartAdr[SegCode];
+        }
+        if (!StopAuto) {
+            StopAdr[ForceSegment] = StopAdr[SegCode];
+        }
+    }
+
     if (!QuietMode) {
         as_snprintf(Ver, sizeof(Ver), "P2HEX/C V%s", Version);
         WrCopyRight(Ver);
